@@ -258,16 +258,28 @@ def store_level(ctx, R):
     # TrackBuilder::build: add_observation result propagated
     bld = ctx.anchor(R, 'track::builder::TrackBuilder::build')
     if bld is not None:
-        ao = bld.find_calls('track::Track::add_observation')
+        from lib import deep_calls, adaptor_of_closure
+        ao = deep_calls(F, bld, 'track::Track::add_observation')
         ok = bool(ao)
         eb = ExprBuilder(bld)
-        for c in ao:
-            # result must reach a `?` (Try::branch) — not be dropped
+        for owner, c in ao:
+            # result must reach a `?` (Try::branch) — not be dropped. In closure form (try_for_each / map + collect
+            # into a Result) the closure returns the call's result and the adaptor's result reaches the `?`
             used = False
-            for br in bld.find_calls('std::ops::Try::branch'):
-                e = eb.operand(br.args[0])
-                if any(x.kind == 'call' and x.extra is c for x in e.walk()):
-                    used = True
+            if owner is bld:
+                for br in bld.find_calls('std::ops::Try::branch'):
+                    e = eb.operand(br.args[0])
+                    if any(x.kind == 'call' and x.extra is c for x in e.walk()):
+                        used = True
+            else:
+                ro = ExprBuilder(owner).place(0, ())
+                returns_it = any(x.kind == 'call' and x.extra is c for x in ro.walk())
+                pb, ac = adaptor_of_closure(F, bld, owner)
+                if returns_it and pb is bld and ac is not None and ac.name in ('try_for_each', 'try_fold', 'map'):
+                    for br in bld.find_calls('std::ops::Try::branch'):
+                        e = eb.operand(br.args[0])
+                        if any(x.kind == 'call' and x.extra is ac for x in e.walk()):
+                            used = True
             ok = ok and used
         ctx.check(ok, R, bld, 'build:propagates-add_observation-error',
                   'TrackBuilder::build propagates add_observation failures',
